@@ -42,6 +42,7 @@ import (
 	"io"
 	"math/rand/v2"
 	"net"
+	"runtime"
 	"sort"
 	"strconv"
 	"strings"
@@ -103,15 +104,29 @@ func c26Mix(x uint64) uint64 {
 	return x ^ (x >> 31)
 }
 
-func c26Fill(dst []byte, seed uint64) {
-	x := c26Mix(seed) | 1
-	for i := range dst {
+// c26Pattern is a fixed pseudo-random megabyte; the padding of a message for
+// id is a window of it chosen by id, so building and checking padding are
+// single copy/compare operations (cheap under the race detector).
+const c26MaxPad = 400 << 10
+
+var c26Pattern = func() []byte {
+	b := make([]byte, 1<<20+c26MaxPad)
+	x := uint64(0x2545f4914f6cdd1d)
+	for i := 0; i+8 <= len(b); i += 8 {
 		x ^= x << 13
 		x ^= x >> 7
 		x ^= x << 17
-		dst[i] = byte(x >> 32)
+		binary.LittleEndian.PutUint64(b[i:], x)
 	}
+	return b
+}()
+
+func c26Pad(seed uint64, n int) []byte {
+	off := int(c26Mix(seed) % (1 << 20))
+	return c26Pattern[off : off+n]
 }
+
+func c26Fill(dst []byte, seed uint64) { copy(dst, c26Pad(seed, len(dst))) }
 
 type c26Req struct {
 	id      uint64
@@ -145,12 +160,13 @@ func c26ParseReq(p []byte) (c26Req, bool) {
 		lag:     binary.BigEndian.Uint32(p[15:]),
 	}
 	pad := int(binary.BigEndian.Uint32(p[19:]))
-	if pad != len(p)-c26ReqHdr || q.beh >= c26bCount {
+	if pad != len(p)-c26ReqHdr || q.beh >= c26bCount || q.respPad > c26MaxPad {
 		return q, false
 	}
-	want := make([]byte, pad)
-	c26Fill(want, q.id^c26K2)
-	return q, bytes.Equal(want, p[c26ReqHdr:])
+	if pad > c26MaxPad {
+		return q, false
+	}
+	return q, bytes.Equal(c26Pad(q.id^c26K2, pad), p[c26ReqHdr:])
 }
 
 // c26Resp is f(id): the only payload call `id` may successfully receive.
@@ -394,12 +410,57 @@ type c26Case struct {
 	nmu   sync.Mutex
 	conns []*c26Conn
 
+	wmu     sync.Mutex
+	waiters []c26Waiter
+	wmin    atomic.Int64
+
 	cmu      sync.Mutex
 	counters map[string]int
 	// non-triviality facts
 	lossAt8    int // link losses (reset/half-close) while >= 8 calls in flight
 	closePeer8 int
 	maxInfl    int64
+}
+
+// progress waiters: handlers of kind "lag" and the chaos goroutine sleep until
+// the case's completed-call counter reaches a target (logical time, no polling).
+type c26Waiter struct {
+	target int64
+	ch     chan struct{}
+}
+
+func (cs *c26Case) waitProgress(target int64) <-chan struct{} {
+	ch := make(chan struct{})
+	cs.wmu.Lock()
+	cs.waiters = append(cs.waiters, c26Waiter{target, ch})
+	if target < cs.wmin.Load() {
+		cs.wmin.Store(target)
+	}
+	cs.wmu.Unlock()
+	cs.notifyProgress(cs.completed.Load()) // re-check after publishing (no lost wake-up)
+	return ch
+}
+
+func (cs *c26Case) notifyProgress(c int64) {
+	if c < cs.wmin.Load() {
+		return
+	}
+	cs.wmu.Lock()
+	min := int64(1 << 62)
+	keep := cs.waiters[:0]
+	for _, w := range cs.waiters {
+		if w.target <= c {
+			close(w.ch)
+			continue
+		}
+		keep = append(keep, w)
+		if w.target < min {
+			min = w.target
+		}
+	}
+	cs.waiters = keep
+	cs.wmin.Store(min)
+	cs.wmu.Unlock()
 }
 
 func (cs *c26Case) count(k string, n int) {
@@ -535,18 +596,13 @@ func (cs *c26Case) handle(ctx context.Context, p []byte) ([]byte, error) {
 		}
 		return c26Resp(q.id, q.respPad), nil
 	case c26bLag:
-		target := int64(idx) + int64(q.lag)
-		for cs.completed.Load() < target {
-			select {
-			case <-ctx.Done():
-				return nil, ctx.Err()
-			case <-cs.gate:
-				return c26Resp(q.id, q.respPad), nil
-			default:
-			}
-			time.Sleep(150 * time.Microsecond)
+		select {
+		case <-cs.waitProgress(int64(idx) + int64(q.lag)):
+			cs.count("handler.lag_released_midcase", 1)
+		case <-ctx.Done():
+			return nil, ctx.Err()
+		case <-cs.gate:
 		}
-		cs.count("handler.lag_released_midcase", 1)
 		return c26Resp(q.id, q.respPad), nil
 	default: // never
 		select {
@@ -567,7 +623,7 @@ func c26PadLen(rng *rand.Rand) int {
 	case x < 99:
 		return rng.IntN(64 << 10)
 	default:
-		return rng.IntN(400 << 10)
+		return rng.IntN(c26MaxPad)
 	}
 }
 
@@ -705,7 +761,7 @@ func (cs *c26Case) oneCall(idx int, rng *rand.Rand) {
 	resp, err := cs.client.Call(ctx, c26SrvNode, shard, pri, c26Svc, payload)
 	cs.inflight.Add(-1)
 	close(cs.done[idx])
-	cs.completed.Add(1)
+	cs.notifyProgress(cs.completed.Add(1))
 	cancel()
 	if timer != nil {
 		timer.Stop()
@@ -805,13 +861,10 @@ func (cs *c26Case) chaos(stop <-chan struct{}, doneCh chan<- struct{}) {
 	}
 	sort.Slice(thr, func(i, j int) bool { return thr[i] < thr[j] })
 	for _, t := range thr {
-		for cs.completed.Load() < t {
-			select {
-			case <-stop:
-				return
-			default:
-			}
-			time.Sleep(100 * time.Microsecond)
+		select {
+		case <-cs.waitProgress(t):
+		case <-stop:
+			return
 		}
 		x := rng.IntN(100)
 		infl := cs.inflight.Load()
@@ -937,7 +990,7 @@ func c26GenCfg(rng *rand.Rand, marathon bool) c26Cfg {
 	if cfg.Chaos < 2 && rng.IntN(3) != 0 {
 		cfg.Chaos += 3
 	}
-	cfg.Total = 600 + rng.IntN(1800)
+	cfg.Total = 400 + rng.IntN(1400)
 	return cfg
 }
 
@@ -954,6 +1007,7 @@ func c26RunCase(r *verifkit.Run, ci int, cfg c26Cfg) (ok, nontrivial bool) {
 	cs := &c26Case{r: r, idx: ci, tag: uint64(ci+1) << 32, cfg: cfg, counters: map[string]int{},
 		linkFaults: cfg.LinkFaults, gate: make(chan struct{}),
 		obs: &c26Obs{last: map[uint64]transport.Event{}, events: map[string]int{}}}
+	cs.wmin.Store(1 << 62)
 	cs.parkCap = int64(cfg.Concurrency / 2)
 	if cs.parkCap < 1 {
 		cs.parkCap = 1
@@ -1058,8 +1112,13 @@ func c26RunCase(r *verifkit.Run, ci int, cfg c26Cfg) (ok, nontrivial bool) {
 	}
 
 	// evidence + non-triviality
+	// (a handler that was still queued inside the stopped service may run a
+	// little later; it only touches atomics and the locked counter map)
 	cs.cmu.Lock()
-	cnt := cs.counters
+	cnt := make(map[string]int, len(cs.counters))
+	for k, v := range cs.counters {
+		cnt[k] = v
+	}
 	loss8, cp8, maxInfl := cs.lossAt8, cs.closePeer8, cs.maxInfl
 	cs.cmu.Unlock()
 	for k, v := range cnt {
@@ -1095,12 +1154,17 @@ func c26RunCase(r *verifkit.Run, ci int, cfg c26Cfg) (ok, nontrivial bool) {
 func TestVerifC26RPC(t *testing.T) {
 	r := verifkit.Start(t, "C26", "rpc")
 	defer r.Finish()
-	r.SetRule("one case = fresh transport.Server on loopback TCP + transport.Client (pool 1..4) over fault conns; 2..64 callers issue 600..2400 Calls whose payload carries a run-unique id and the handler behaviour (echo f(id) now/after delay, id-carrying error, answer only after the caller gave up, answer after N further calls completed, never); callers use long/none/short deadlines, pre-cancelled ctx, timer cancel, cancel-when-handler-started; chaos at PRNG progress points: RST, half-close read/write, mid-frame stall (then continue or reset) in either direction, ClosePeer (also concurrent); per-op PRNG delays/fragmentation/resets inside the conn; config (service concurrency/queue/timeout, batch limits, queue limits, dial failures/cooldown) from the case PRNG. One marathon case (72k calls on one connection) separates a given-up call from its late answer by >65k request ids. Non-trivial case = >=1 call gave up by timeout/cancel AND >=1 link loss (reset/half-close) happened while >=8 calls were in flight AND >=1 call succeeded; distinct by abstract shape (sizes, fault/outcome buckets).")
+	r.SetRule("one case = fresh transport.Server on loopback TCP + transport.Client (pool 1..4) over fault conns; 2..64 callers issue 400..1800 Calls whose payload carries a run-unique id and the handler behaviour (echo f(id) now/after delay, id-carrying error, answer only after the caller gave up, answer after N further calls completed, never); callers use long/none/short deadlines, pre-cancelled ctx, timer cancel, cancel-when-handler-started; chaos at PRNG progress points: RST, half-close read/write, mid-frame stall (then continue or reset) in either direction, ClosePeer (also concurrent); per-op PRNG delays/fragmentation/resets inside the conn; config (service concurrency/queue/timeout, batch limits, queue limits, dial failures/cooldown) from the case PRNG. Thorough tier: three marathon cases (72k calls on one connection) separate a given-up call from its late answer by >65k request ids. Non-trivial case = >=1 call gave up by timeout/cancel AND >=1 link loss (reset/half-close) happened while >=8 calls were in flight AND >=1 call succeeded; distinct by abstract shape (sizes, fault/outcome buckets).")
 	r.Assume("loopback TCP delivers bytes unmodified; the fault conn only delays, fragments, truncates-then-resets, never alters bytes")
 	r.Assume("a success payload equal to f(id) can only originate from the handler invocation for id (f is injective, 128-bit tagged)")
 
-	nCases := r.N(36, 420)
-	marathonEvery := r.N(36, 60) // one marathon in quick, seven in thorough
+	// The box is shared with other checks; fewer Ps than cores keeps the Go
+	// scheduler from thrashing while still giving real parallelism.
+	if runtime.GOMAXPROCS(0) > 8 {
+		defer runtime.GOMAXPROCS(runtime.GOMAXPROCS(8))
+	}
+	nCases := r.N(30, 240)
+	marathonEvery := 80 // thorough tier only: three marathon cases
 	nontrivialFloor := nCases / 3
 	ran, nNontrivial, aborted := 0, 0, false
 	for ci := 0; ci < nCases; ci++ {
@@ -1108,7 +1172,7 @@ func TestVerifC26RPC(t *testing.T) {
 			continue
 		}
 		rng := r.Rand(26, uint64(ci), 0)
-		marathon := ci%marathonEvery == marathonEvery/2
+		marathon := r.Thorough() && ci%marathonEvery == marathonEvery/2
 		cfg := c26GenCfg(rng, marathon)
 		r.BeginCase(ci, fmt.Sprintf("%+v", cfg))
 		t0 := time.Now()
